@@ -13,7 +13,7 @@ FILES = {
     "internal/verifdrv/vfd/vfd.go": "vfd/vfd.go",
     "PVM/zz_verif_pvm_test.go": "pvm/zz_verif_pvm_test.go",
 }
-ALWAYS = [10, 30, 73, 80, 180]          # formats with two length fields / host call: always in the quick pick
+ALWAYS = [10, 20, 30, 40, 51, 73, 80, 100, 131, 170, 180, 200]   # one opcode of every operand format: always in the quick pick
 
 
 def pick_ops(ctx, n):
@@ -54,17 +54,38 @@ def partition_cases(ctx, ops, cap, tag="part"):
     return cases, total
 
 
+def alu_cases(ctx, cap):
+    """TLC-enumerated arithmetic boundary partition (PVM_AluPart): every pair of boundary operand values for the
+    ALU opcodes (quick: all 72 ALU opcodes on 7 core values; thorough: 23 values, sampled to 8000)."""
+    rng = vf.Rng(ctx.seed * 31 + 7)
+    consts = {"Tier": '"%s"' % ctx.tier, "OpsPick": "{}"}
+    casep = vf.gen_cases(ctx, "PVM_AluGen", consts, timeout=1500, heap="8g", tag="alu")
+    raw = [json.loads(l) for l in vf.read_lines(casep)]
+    total = len(raw)
+    if cap and len(raw) > cap:
+        raw = [r for r in raw if rng.n(total) < cap]
+    for i, r in enumerate(raw):
+        r["id"] = "%s%d" % (r["id"], i)
+        r["tag"] = "%s:%d" % (r["tag"], r["prog"]["code"][0])
+        r["fx"] = []
+    return raw, total
+
+
 def build_cases(ctx, n_part, n_random, mc=True):
     quick = ctx.quick
-    ops = pick_ops(ctx, 6) if quick else None
+    ops = pick_ops(ctx, 14) if quick else None
+    mc_ops = pick_ops(ctx, 14)[::3] if quick else None
     if mc:
         invs = ["InvExitKind", "InvGas", "InvInvalidTraps", "InvNoSideEffectOnExit", "InvPanicHaltPc", "InvFaultPc",
                 "InvContTarget", "InvWrites"]
         vf.mc(ctx, "MC_PVM", vf.cfg_text(constants={"Tier": '"%s"' % ("quick" if quick else "thorough"),
-                                                    "OpsPick": tla_int_set(ops or [])}, invariants=invs),
+                                                    "OpsPick": tla_int_set(mc_ops or [])}, invariants=invs),
               workers=8 if quick else 14, timeout=3000, heap="8g")
     cases, total = partition_cases(ctx, ops, n_part)
     ctx.cov["partition_total"] = total
+    alu, alu_total = alu_cases(ctx, 0 if quick else (0 if os.environ.get("VERIF_FULL") == "1" else 8000))
+    ctx.cov["alu_partition_total"] = alu_total
+    cases += alu
     rng = vf.Rng(ctx.seed)
     cases += pvmgen.gen_random_cases(rng, n_random)
     return cases
@@ -113,12 +134,12 @@ def run(ctx, mode="c01"):
         cases = replay_cases(ctx.replay)
     else:
         full = os.environ.get("VERIF_FULL") == "1"
-        cases = build_cases(ctx, 1000 if ctx.quick else (0 if full else 25000), 220 if ctx.quick else 3000)
+        cases = build_cases(ctx, 1300 if ctx.quick else (0 if full else 25000), 220 if ctx.quick else 3000)
     lines = execute(ctx, cases)
     ctx.cov["evaluations"] = len(lines)
     ctx.cov["distinct_nontrivial"] = nontrivial(lines)
-    ctx.cov["rule"] = ("cases = TLC-enumerated decode partition (opcode x operand-format fields x skip x position; quick: 7 seed-picked "
-                       "opcodes sampled to 1000, thorough: all 151848 sampled to 25000, VERIF_FULL=1: all) with seeded start states + seeded random programs (clean and edgy "
+    ctx.cov["rule"] = ("cases = TLC-enumerated decode partition (opcode x operand-format fields x skip x position; quick: one opcode per operand format + 3 seed-picked "
+                       "opcodes sampled to 1300, thorough: all 151848 sampled to 25000, VERIF_FULL=1: all) with seeded start states + seeded random programs (clean and edgy "
                        "encodings, up to 6 host-call segments); non-trivial = distinct (program, start pc, gas, registers) segments that execute at least one instruction")
     ctx.cov["samples"] = [json.loads(x) for x in lines[:1] + lines[-1:]]
     vf.validate_trace(ctx, "PVM_Trace", lines, constants={"Mode": '"%s"' % mode}, shard=220 if ctx.quick else 900, par=14,
